@@ -10,6 +10,7 @@
  *   SUM n pattern | WSUM n pattern wpattern     data summary / weighted summary round trip
  *   ALIAS n pattern k                           alias table with n entries, k draws
  *   SAMPLE kind a                               one sampler call with boundary parameters
+ *   EMPTY which a                               operations on empty (or emptied) containers, copies into targets with data
  */
 #include "core.h"
 #include <math.h>
@@ -201,6 +202,33 @@ static void sample_call(int kind, int64_t a)
     }
 }
 
+/* the containers while still (or again) empty, and copies into targets that already hold data */
+static void empty_ops(int which, int64_t a)
+{
+    struct cmb_dataset *e = cmb_dataset_create(); cmb_dataset_initialize(e);
+    struct cmb_timeseries *t = cmb_timeseries_create(); cmb_timeseries_initialize(t);
+    if (a & 8) { (void)cmb_dataset_add(e, 1.0); cmb_dataset_reset(e); (void)cmb_timeseries_add(t, 1.0, 0.0); cmb_timeseries_reset(t); }   /* empty again */
+    switch (((which % 10) + 10) % 10) {
+        case 0: cmb_dataset_sort(e); (void)cmb_dataset_count(e); break;
+        case 1: (void)cmb_dataset_median(e); break;
+        case 2: cmb_dataset_fivenum_print(e, devnull, (a & 1) != 0); break;
+        case 3: cmb_dataset_print(e, devnull); cmb_dataset_histogram_print(e, devnull, 1 + (unsigned)(a % 20), 0.0, (a & 2) ? 0.0 : 5.0); break;
+        case 4: { struct cmb_datasummary su; cmb_datasummary_initialize(&su); (void)cmb_dataset_summarize(e, &su); cmb_datasummary_print(&su, devnull, true); cmb_datasummary_terminate(&su); break; }
+        case 5: { struct cmb_wtdsummary w; cmb_wtdsummary_initialize(&w); (void)cmb_timeseries_summarize(t, &w); cmb_wtdsummary_print(&w, devnull, true);
+                  cmb_wtdsummary_reset(&w); (void)cmb_wtdsummary_add(&w, 2.0, 1.0); cmb_wtdsummary_reset(&w); cmb_wtdsummary_terminate(&w); break; }
+        case 6: cmb_timeseries_print(t, devnull); cmb_timeseries_histogram_print(t, devnull, 1 + (unsigned)(a % 20), 0.0, (a & 2) ? 0.0 : 5.0); break;
+        case 7: cmb_timeseries_sort_x(t); cmb_timeseries_sort_t(t); break;   /* weighted median / five-number summary of nothing: the library states that precondition as a release assert */
+        case 8: if (ds) { (void)cmb_dataset_copy(ds, e); (void)cmb_dataset_count(ds); (void)cmb_dataset_add(ds, 4.0); (void)cmb_dataset_median(ds); }          /* an empty source into a target with data */
+                else { build_ds(9, 0); struct cmb_dataset *c = cmb_dataset_create(); cmb_dataset_initialize(c); (void)cmb_dataset_add(c, 1.0); (void)cmb_dataset_copy(c, ds); (void)cmb_dataset_median(c); cmb_dataset_destroy(c); }
+                break;
+        default: if (ts) { struct cmb_timeseries *c = cmb_timeseries_create(); cmb_timeseries_initialize(c); (void)cmb_timeseries_add(c, 1.0, 0.0); (void)cmb_timeseries_add(c, 2.0, 1.0);
+                           (void)cmb_timeseries_copy(c, ts); (void)cmb_timeseries_median(c); (void)cmb_timeseries_copy(c, t); (void)cmb_timeseries_count(c); cmb_timeseries_destroy(c); }
+                 break;
+    }
+    cmb_dataset_destroy(e); cmb_timeseries_destroy(t);
+    PROBE("util.empty_container_ops");
+}
+
 static void interpret(void)
 {
     for (int i = 0; i < P->n; i++) {
@@ -214,6 +242,7 @@ static void interpret(void)
         else if (pis(l, "WSUM")) sum_roundtrip((int)((uint64_t)pa(l, 0) % 40), (int)pa(l, 1), (int)pa(l, 2), true);
         else if (pis(l, "ALIAS")) alias_roundtrip((int)((uint64_t)pa(l, 0) % 300) + 1, (int)pa(l, 1), (int)((uint64_t)pa(l, 2) % 200));
         else if (pis(l, "SAMPLE")) sample_call((int)pa(l, 0), pa(l, 1));
+        else if (pis(l, "EMPTY")) empty_ops((int)pa(l, 0), pa(l, 1));
         TR2(l->op, pa(l, 0), pa(l, 1));
     }
 }
@@ -270,7 +299,8 @@ static void ut_gen(plan *p, uint64_t seed, const char *cfg)
         else if (k < 68) plan_add(p, "TOP", 3, (int64_t)vrng_below(&r, 12), (int64_t)vrng_below(&r, 100), (int64_t)vrng_below(&r, 20));
         else if (k < 74) plan_add(p, "SUM", 2, (int64_t)vrng_below(&r, 40), (int64_t)vrng_below(&r, 7));
         else if (k < 80) plan_add(p, "WSUM", 3, (int64_t)vrng_below(&r, 40), (int64_t)vrng_below(&r, 7), (int64_t)vrng_below(&r, 4));
-        else if (k < 85) plan_add(p, "ALIAS", 3, (int64_t)vrng_below(&r, vrng_chance(&r, 1, 2) ? 6 : 300), (int64_t)vrng_below(&r, 4), (int64_t)vrng_below(&r, 200));
+        else if (k < 83) plan_add(p, "EMPTY", 2, (int64_t)vrng_below(&r, 10), (int64_t)vrng_below(&r, 16));
+        else if (k < 87) plan_add(p, "ALIAS", 3, (int64_t)vrng_below(&r, vrng_chance(&r, 1, 2) ? 6 : 300), (int64_t)vrng_below(&r, 4), (int64_t)vrng_below(&r, 200));
         else plan_add(p, "SAMPLE", 2, (int64_t)vrng_below(&r, 30), (int64_t)vrng_below(&r, 4));
     }
 }
